@@ -25,7 +25,7 @@ def main(tier):
     for begin, tail in deaths:
         kind = 'no result within the budget' if 'TIMEOUT' in tail[-200:] else 'worker death'
         rep.fail(f'{begin} / {kind}', ['death'], dict(begin=begin, kind=kind, tail=tail[-600:]))
-    if len(recs) + len(deaths) < len(truth):
+    if len(recs) + len(deaths) < len(truth) and not any(b.startswith('ABORTED') for b, _ in deaths):
         vlib.tool_error(f'defers records incomplete: {len(recs)} of {len(truth)}')
     states = edges = 0
     bounded = unbounded = multi = native_ok = loopfree_eq = 0
